@@ -400,6 +400,7 @@ func ParseMemberExpr(p *ParserZH) syntax.Expression {
 		if match, tk := p.tryConsume(TypeIdentifier); match {
 			id := newID(p, tk)
 			p.setStmtCurrentLine(id, tk)
+			p.setStmtCurrentLine(memberExpr, tk)
 			memberExpr.MemberType = syntax.MemberID
 			memberExpr.MemberID = id
 
